@@ -124,7 +124,9 @@ NewVisit(rs, s, claim, tok2, t) ==
                 !.declined[s] = {}, !.asked[s] = {}, !.sentInVisit[s] = FALSE, !.hpUsed[s] = FALSE, !.pasTaint = FALSE,
                 \* a request still unanswered when the station takes a new token was abandoned (an unexpected telegram
                 \* ended the wait): 'at most one of reply / time-out per request'
-                !.outstanding[s] = -1,
+                \* (against a scripted peer the order on the wire is not the order of processing: a reply that is still unread
+                \* when the token arrives is delivered afterwards - there the next request simply replaces the entry)
+                !.outstanding[s] = IF rs.cfg.mode = "single" THEN @ ELSE -1,
                 !.cadNs[s] = ns,
                 !.cadVisits[s] = IF full THEN 0 ELSE visits,
                 !.cadPolled[s] = IF fresh \/ full THEN {} ELSE @,
